@@ -57,6 +57,9 @@ theorem absFrame_build_logon (m : Msg) (hm : m.mtype = mLogon) :
   cases hf : absFrame (buildFrame s stamp m n) with
   | mk sq kd => rw [hf] at hk hs; simp_all
 
+theorem absFrame_build_logonReply (e h : String) :
+    absFrame (buildFrame s stamp (logonReplyMsg e h) n) = ⟨n, .logon⟩ := absFrame_build_logon s stamp n _ rfl
+
 theorem kindOK_build_logon (e h : String) : KindOK (buildFrame s stamp (logonReplyMsg e h) n) := by
   unfold KindOK
   rw [buildFrame_mtype, if_pos (by rfl)]
